@@ -20,7 +20,8 @@ def plan(tier, seed):
   # not be run to the end and triaged on the unchanged tree in the time available (DESIGN.md
   # section 10).
   fams = [seed] if tier == 'quick' else [seed, seed + 1, seed + 2, seed + 3]
-  return [{'witness': 'self_lookup_cycle'}] + [{'hseed': f * 100003 + i, 'steps': 14} for f in fams for i in range(16)] + \
+  return [{'witness': 'self_lookup_cycle'}] + [{'hseed': f * 100003 + 70000, 'steps': 12, 'scenario': 'trigger_midbundle'} for f in fams] + \
+         [{'hseed': f * 100003 + i, 'steps': 14} for f in fams for i in range(16)] + \
          [{'hseed': f * 100003 + 50000 + i, 'steps': 14, 'stream': 'B'} for f in fams for i in range(6)]
 
 # Stream B (see props/C02.py): bundles in which several actions touch the same rows / cells / columns, so that a
@@ -68,6 +69,38 @@ def run_shard(spec, acc):
   # tree within the session's budget, so it is not offered as a tier).
   maxpos = 12
   fm = histories.FaultMonitor(nt, max_positions=maxpos, stride_rnd=random.Random(spec['hseed'] ^ 0x5eed))
+  if spec.get('scenario') == 'trigger_midbundle':
+    # Scripted scenario: a trigger-formula column G (data) is recalculated in the middle of a bundle - because a
+    # formula column reading it is turned into data or retyped, which brings it up to date - before a later step
+    # fails (every failpoint position is enumerated). Values calculated so far must be reverted as well.
+    rnd = random.Random(spec['hseed'])
+    def setup(h):
+      h.apply([['AddTable', 'T', [{'id': 'A', 'type': 'Int', 'isFormula': False}, {'id': 'B', 'type': 'Int', 'isFormula': False}]]], 'setup')
+      h.apply([['AddColumn', 'T', 'G', {'type': 'Int', 'isFormula': False, 'formula': '$A * 10', 'recalcWhen': 0, 'recalcDeps': [2]}]], 'setup')
+      h.apply([['AddColumn', 'T', 'F', {'type': 'Any', 'isFormula': True, 'formula': '$G + 1'}]], 'setup')
+      h.apply([['BulkAddRecord', 'T', [None, None, None], {'A': [1, 2, 3], 'B': [0, 0, 0]}]], 'setup')
+    state = {'formula': True}
+    def scripted(model):
+      r1, r2 = rnd.randint(1, 3), rnd.randint(1, 3)
+      if not state['formula']:
+        state['formula'] = True
+        return [['ModifyColumn', 'T', 'F', {'isFormula': True, 'formula': '$G + 1'}]]
+      k = rnd.random()
+      first = ['UpdateRecord', 'T', r1, {'A': rnd.randint(4, 99)}]
+      last = rnd.choice([['UpdateRecord', 'T', r2, {'B': rnd.randint(1, 9)}], ['AddRecord', 'T', None, {'A': rnd.randint(4, 99)}],
+                         ['UpdateRecord', 'T', 999, {'B': 1}]])
+      if k < 0.5:
+        state['formula'] = False
+        return [first, ['ModifyColumn', 'T', 'F', {'isFormula': False}], last]
+      if k < 0.8:
+        return [first, ['ModifyColumn', 'T', 'F', {'type': rnd.choice(['Text', 'Int', 'Numeric', 'Any'])}], last]
+      return [first, ['AddOrUpdateRecord', 'T', {'G': rnd.randint(1, 3) * 10}, {'B': rnd.randint(1, 9)}, {}], last]
+    h = histories.History(acc, spec['hseed'], [fm, nt], spec['steps'], weights=WEIGHTS, flags={'bundle_multi': 0.5},
+                          proc_kw={'failpoints': True}, setup=setup)
+    h.gen.bundle = scripted
+    h.run()
+    acc.count('scenario_histories')
+    return
   if spec.get('stream') == 'B':
     h = histories.History(acc, spec['hseed'], [fm, nt], spec['steps'], weights=WEIGHTS_B, flags=FLAGS_B,
                           proc_kw={'failpoints': True})
